@@ -216,7 +216,12 @@ def fork_obligation(out, eng, ex, pr, oid="O5.fork"):
         cell = Cell(Lazy("vm::thread::VMThread", "th"), "th")
         r = ctx.run_fn(f_fork, [Ref(cell, ()), Int(tgt, 32)])
         return r, cell, ctx
-    paths = ex.explore(body_fork)
+    try:
+        paths = ex.explore(body_fork)
+    except Unsupported as e:
+        out.obligation(oid, "mirsmt", "inconclusive", 0, witness=False, note=str(e))
+        out.inconc("%s: %s" % (oid, e))
+        return
 
     def post_fork(p):
         r, cell, ctx = p.ret
@@ -312,6 +317,8 @@ def jumpi_fork_guard(out, eng, pr):
                 m = s.model()
                 mxv = ev(m, n["vis_max"])
                 confirmed, rep = native.scenario(out, "fork_first_visit", {"max_iterations": max(1, min(mxv, 6))})
+                if not confirmed:
+                    confirmed, rep = native.scenario(out, "loop_family_visits", {"max_iterations": 3})
                 what = ("JumpI::execute forks to a target the current thread has already visited `max` times; the forked thread then "
                         "executes it once more without a limit check (per-thread visits = limit + 1)")
                 if confirmed:
